@@ -13,6 +13,27 @@ LABEL_ERROR = 'error'
 LABEL_WARNING = 'warning'
 
 
+def _get_path(obj):
+    """
+    Returns the absolute path of an odml object like its get_path method, but also
+    for objects with a name that is not a string. Names are not restricted to strings
+    when an object is created (a YAML file may contain 'name: 1'); get_path can only
+    join strings, while a validation has to be able to describe any object it finds.
+
+    :param obj: document, section or property.
+    """
+    names = []
+    node = obj
+    while node.parent is not None:
+        names.insert(0, "%s" % (node.name,))
+        node = node.parent
+
+    if obj.format().name == "property" and names:
+        return "/" + "/".join(names[:-1]) + ":" + names[-1]
+
+    return "/" + "/".join(names)
+
+
 class IssueID(Enum):
     """
     IDs identifying registered validation handlers.
@@ -83,7 +104,7 @@ class ValidationError(object):
         """
         :returns: The absolute path to the odml object the ValidationError is bound to.
         """
-        return self.obj.get_path()
+        return _get_path(self.obj)
 
     def __repr__(self):
         # Cleanup the odml object print strings
@@ -307,7 +328,7 @@ def document_unique_ids(doc):
 
     :param doc: odML document
     """
-    id_map = {doc.id: "Document '%s'" % doc.get_path()}
+    id_map = {doc.id: "Document '%s'" % _get_path(doc)}
     for i in section_unique_ids(doc, id_map):
         yield i
 
@@ -335,10 +356,10 @@ def section_unique_ids(parent, id_map=None):
             yield i
 
         if sec.id in id_map:
-            msg = "Duplicate id in Section '%s' and %s" % (sec.get_path(), id_map[sec.id])
+            msg = "Duplicate id in Section '%s' and %s" % (_get_path(sec), id_map[sec.id])
             yield ValidationError(sec, msg, validation_id=validation_id)
         else:
-            id_map[sec.id] = "Section '%s'" % sec.get_path()
+            id_map[sec.id] = "Section '%s'" % _get_path(sec)
 
         for i in section_unique_ids(sec, id_map):
             yield i
@@ -363,11 +384,11 @@ def property_unique_ids(section, id_map=None):
 
     for prop in section.properties:
         if prop.id in id_map:
-            msg = "Duplicate id in Property '%s' and %s" % (prop.get_path(),
+            msg = "Duplicate id in Property '%s' and %s" % (_get_path(prop),
                                                             id_map[prop.id])
             yield ValidationError(prop, msg, validation_id=validation_id)
         else:
-            id_map[prop.id] = "Property '%s'" % prop.get_path()
+            id_map[prop.id] = "Property '%s'" % _get_path(prop)
 
 
 Validation.register_handler('odML', document_unique_ids)
@@ -385,15 +406,21 @@ def object_unique_names(obj, validation_id, children, attr=lambda x: x.name,
     :param attr: a function that returns the attribute that needs to be unique.
     :param msg: error message that will be registered with a ValidationError.
     """
-    names = set(map(attr, children(obj)))
-    if len(names) == len(children(obj)):
-        return
-
     names = set()
+    # Names are not restricted to strings; a YAML or JSON file can even contain
+    # a name that cannot be hashed like a list. These are compared one by one.
+    unhashable = []
     for i in children(obj):
-        if attr(i) in names:
+        name = attr(i)
+        try:
+            known = name in names
+            names.add(name)
+        except TypeError:
+            known = name in unhashable
+            unhashable.append(name)
+
+        if known:
             yield ValidationError(i, msg, LABEL_ERROR, validation_id)
-        names.add(attr(i))
 
 
 def section_unique_name_type(obj):
